@@ -174,6 +174,9 @@ structure CleanPost (p4 : Word) (recSkip : Option Nat) (r : List Nat) (s s' : St
   /-- memory changes only by zeroing entries of tables at or below `r` -/
   mem : ∀ f j, s'.mem f j ≠ s.mem f j →
     s'.mem f j = 0#64 ∧ ∃ q, q.length ≤ 2 ∧ IdxOK q ∧ r <+: q ∧ tblAt s.mem p4 q = some f
+  /-- … and only entries that pointed to a table (present, not huge) which this run deallocates: a slot
+  that holds a leaf — in particular a page mapped without `PRESENT` — is never modified -/
+  link : ∀ f j, s'.mem f j ≠ s.mem f j → ∃ c, tableOf (s.mem f j) = some c ∧ c ∈ deallocsIn seg
   /-- tables only disappear … -/
   tree : ∀ q g, q.length ≤ 3 → IdxOK q → tblAt s'.mem p4 q = some g → tblAt s.mem p4 q = some g
   /-- … and only strictly below `r` -/
@@ -195,6 +198,7 @@ theorem CleanPost.refl (p4 : Word) (recSkip : Option Nat) (r : List Nat) (s : St
   allocs := rfl
   events := by simp
   mem := by intro f j h; exact absurd rfl h
+  link := by intro f j h; exact absurd rfl h
   tree := by intro q g _ _ h; exact h
   keep := by intro q g _ _ h _; exact h
   touch := by intro ev h; cases h
@@ -212,6 +216,7 @@ theorem CleanPost.reads (p4 : Word) (recSkip : Option Nat) (r : List Nat) (s s' 
   allocs := ha
   events := he
   mem := by intro f j h; rw [hm] at h; exact absurd rfl h
+  link := by intro f j h; rw [hm] at h; exact absurd rfl h
   tree := by intro q g _ _ h; rw [hm] at h; exact h
   keep := by intro q g _ _ h _; rw [hm]; exact h
   touch := by
@@ -254,6 +259,7 @@ theorem CleanPost.lift {p4 : Word} {rs : Option Nat} {r e : List Nat} {s s' : St
     intro f j hne
     obtain ⟨h0, q, hq, hqi, hrq, hf⟩ := h.mem f j hne
     exact ⟨h0, q, hq, hqi, prefix_of_ext hrq, hf⟩
+  link := h.link
   tree := h.tree
   keep := by
     intro q g hq hqi hg hnb
@@ -291,6 +297,18 @@ theorem CleanPost.trans {p4 : Word} {rs : Option Nat} {r : List Nat} {s s1 s2 : 
       exact ⟨h.trans h0, q, hq, hqi, hrq, hf⟩
     · obtain ⟨h0, q, hq, hqi, hrq, hf⟩ := h2.mem f j h
       exact ⟨h0, q, hq, hqi, hrq, h1.tree q f (by omega) hqi hf⟩
+  link := by
+    intro f j hne
+    by_cases h : s2.mem f j = s1.mem f j
+    · obtain ⟨c, hc, hd⟩ := h1.link f j (by rw [← h]; exact hne)
+      exact ⟨c, hc, by rw [deallocsIn_append]; exact List.mem_append_left _ hd⟩
+    · obtain ⟨c, hc, hd⟩ := h2.link f j h
+      by_cases h' : s1.mem f j = s.mem f j
+      · exact ⟨c, by rw [← h']; exact hc, by rw [deallocsIn_append]; exact List.mem_append_right _ hd⟩
+      · have := (h1.mem f j h').1
+        rw [this] at hc
+        have h0 : tableOf (0#64 : Word) = none := by decide
+        rw [h0] at hc; cases hc
   tree := by intro q g hq hqi hg; exact h1.tree q g hq hqi (h2.tree q g hq hqi hg)
   keep := by intro q g hq hqi hg hnb; exact h2.keep q g hq hqi (h1.keep q g hq hqi hg hnb) hnb
   touch := by
@@ -348,7 +366,7 @@ theorem CleanPost.unlink (p4 : Word) (rs : Option Nat) (r : List Nat) (tbl : Wor
   have hri' : IdxOK (r ++ [i]) := IdxOK_append.2 ⟨hri, fun j hj => by simp at hj; rw [hj]; exact hi⟩
   have hrc : tblAt s.mem p4 (r ++ [i]) = some c := by
     rw [tblAt_append, hr]; simp [tblAt, hc]
-  refine ⟨?_, ?_, rfl, by simp, ?_, ?_, ?_, ?_, ?_, by simp [deallocsIn], ?_⟩
+  refine ⟨?_, ?_, rfl, by simp, ?_, ?_, ?_, ?_, ?_, ?_, by simp [deallocsIn], ?_⟩
   · exact Inv_unlink s.mem p4 hinv r tbl i hr (by omega) hri
   · intro va; exact walk_unlink_empty s.mem p4 hinv r tbl i c hr hrl hri hc hempty va
   · intro f j hne
@@ -356,6 +374,12 @@ theorem CleanPost.unlink (p4 : Word) (rs : Option Nat) (r : List Nat) (tbl : Wor
     by_cases hw : f = tbl ∧ j = i
     · obtain ⟨h1, h2⟩ := hw; subst h1; subst h2
       exact ⟨PMem.set_same _ _ _ _, r, hrl, hri, List.prefix_refl _, hr⟩
+    · exact absurd (PMem.set_other s.mem tbl i _ f j hw) hne
+  · intro f j hne
+    simp only [St.dealloc_mem, St.wr_mem] at hne
+    by_cases hw : f = tbl ∧ j = i
+    · obtain ⟨h1, h2⟩ := hw; subst h1; subst h2
+      exact ⟨c, hc, by simp [deallocsIn]⟩
     · exact absurd (PMem.set_other s.mem tbl i _ f j hw) hne
   · intro q g hq hqi hg
     simp only [St.dealloc_mem, St.wr_mem] at hg
